@@ -108,7 +108,8 @@ Step(r) ==
          /\ Check(IF s.cp.set THEN (IF r.rc # 0 THEN {"C19:checkpoint delete failed"} ELSE {}) ELSE {})
          /\ s' = (IF r.rc = 0 THEN CpDelete(s) ELSE s) /\ prevUpd' = FALSE /\ UNCHANGED <<cfg, comp, lastUp, beh>>
     [] r.ev = "out_delete_all" ->
-         /\ Check(IF r.rc # 0 THEN {"C19:out delete --all failed"} ELSE {})
+         \* (invoked from a directory other than the repository's it may refuse; a reported success still means deleted)
+         /\ Check(IF r.rc # 0 /\ ~("elsewhere" \in DOMAIN r /\ r.elsewhere) THEN {"C19:out delete --all failed"} ELSE {})
          /\ s' = (IF r.rc = 0 THEN CpDelete(s) ELSE s) /\ prevUpd' = FALSE /\ UNCHANGED <<cfg, comp, lastUp, beh>>
     [] r.ev = "analyze" -> Check(AnalyzeWhys(r)) /\ UNCHANGED <<s, cfg, comp, lastUp, prevUpd, beh>>
     [] r.ev = "run"     -> Check(RunWhys(r)) /\ UNCHANGED <<s, cfg, comp, lastUp, prevUpd, beh>>
